@@ -161,6 +161,12 @@ impl<'a> Al<'a> {
                 }
                 // nothing is stated about how elements in foreign namespaces are spelled
                 if is_void(&e.name) {
+                    if !e.children.is_empty() {
+                        // a void element that HAS children in the tree (HTML knows no such thing): they
+                        // are written after its start tag, and there is still no end tag
+                        self.children(&e.children, Some(e), &inner)?;
+                        self.skip_ws();
+                    }
                     if let Some(Tok::End(en)) = self.toks.get(self.i) {
                         // (an end tag of the same name may belong to the parent; then a surplus
                         // end tag shows up one level further out)
@@ -456,6 +462,45 @@ impl Property for C19 {
                 let to = RAWISH[src.choice(RAWISH.len())];
                 rename(&mut doc, &mut k, to);
                 ctx.label("rawish_element_name");
+            }
+        } else if src.ratio(1, 6) {
+            // ... or to a VOID name although it may have children (the tree allows it): the children
+            // are written, and the element still gets no end tag
+            const VOIDISH: &[&str] = &["br", "HR", "img", "input", "Wbr"];
+            fn count(n: &ANode) -> usize {
+                let own = match n {
+                    ANode::Element(e) if (e.name.ns.is_empty() || e.name.ns == XHTML) && !is_void(&e.name) && !is_raw_text(&e.name) && !e.children.is_empty() && !matches!(e.children.last(), Some(ANode::Text(_))) => 1,
+                    _ => 0,
+                };
+                own + n.children().iter().map(count).sum::<usize>()
+            }
+            fn rename(n: &mut ANode, k: &mut usize, to: &str) {
+                if let ANode::Element(e) = n {
+                    // (the last child is not text: without an end tag it would run into a following text sibling)
+                    if (e.name.ns.is_empty() || e.name.ns == XHTML) && !is_void(&e.name) && !is_raw_text(&e.name) && !e.children.is_empty() && !matches!(e.children.last(), Some(ANode::Text(_))) {
+                        if *k == 0 {
+                            e.name.local = to.to_string();
+                            *k = usize::MAX;
+                            return;
+                        }
+                        *k -= 1;
+                    }
+                }
+                if let Some(ch) = n.children_mut() {
+                    for c in ch.iter_mut() {
+                        if *k == usize::MAX {
+                            return;
+                        }
+                        rename(c, k, to);
+                    }
+                }
+            }
+            let total = count(&doc);
+            if total > 0 {
+                let mut k = src.choice_big(total);
+                let to = VOIDISH[src.choice(VOIDISH.len())];
+                rename(&mut doc, &mut k, to);
+                ctx.label("void_element_with_children");
             }
         }
         // (late draw) a foreign namespace URI that needs escaping where it is written as an attribute value
